@@ -23,6 +23,7 @@ func genCursorCase(t *rapid.T) CursorCase {
 		rapid.SampledFrom([]int{0, 250, 500, 500, 900, 900, 1000, 1000}),
 		rapid.IntRange(0, 1000),
 	).Draw(t, "beta")
+	c.Tree.Mag = rapid.SampledFrom([]int{0, 0, 1, 2}).Draw(t, "mag")
 	c.Tree.Init = rapid.SliceOfN(rapid.IntRange(0, 47), 0, 40).Draw(t, "init")
 	c.Tree.Ops = rapid.SliceOfN(genOp(opKindsCursorTree), 0, 25).Draw(t, "ops")
 	if rapid.IntRange(0, 3).Draw(t, "skew") > 0 {
